@@ -18,11 +18,16 @@
    split_event_size minus predictionLookahead (0 = never split).
 
    Named deviations (TRUE = what the code does):
+     D16_TimeoutDropsPartials, D20_BackslashNIsEnd (below).
+   Repaired deviations, kept as spec mutants (FALSE = the code since the fix; TRUE = the old behaviour, which
+   TLC must reject: K8sMultiline_mutD12.cfg violates NoPanic, K8sMultiline_mutD17.cfg violates ResidualOK):
      D12_EmptyLogPanics          : "log":"" -- logFragment[len-3:len-1] with len = 2 is out of range.
+                                   Repaired by 850331b ("logFragmentLen >= 4 &&": an empty fragment is a partial chunk).
      D16_TimeoutDropsPartials    : on a stream time-out the buffered chunks are thrown away (resetLogBuf,
                                    ActionDiscard; see the todo in the code) instead of being flushed.
      D17_SkipSurvivesTimeout     : resetLogBuf does not clear skipNextEvent, so after a time-out inside an
                                    oversize line the NEXT line is discarded (or cut) as well.
+                                   Repaired by e8faead (the time-out branch sets skipNextEvent = false).
      D20_BackslashNIsEnd         : the end-of-line test looks at the last two ESCAPED bytes; a partial chunk whose
                                    text ends with a literal backslash followed by the letter n (escaped \\n)
                                    is taken for the final chunk, so the line is cut in two events there. *)
@@ -240,8 +245,10 @@ Consumed == SubSeq(cs.seq, 1, i)
 
 \* C15 at every step (no deviation exercised)
 StatementOK == dev = {} => AllRunsOK(Consumed, to, out, FALSE)
-\* with D16 exercised: everything except the runs closed by a time-out
-ResidualOK == (dev \subseteq {"D16"}) => AllRunsOK(Consumed, to, out, TRUE)
+\* with D16 exercised: everything except the runs closed by a time-out (a stale skip flag, D17, is NOT excused)
+ResidualOK == (dev \subseteq {"D16", "D17"}) => AllRunsOK(Consumed, to, out, TRUE)
+\* Do never panics (D12 repaired)
+NoPanic == pc # "panic"
 
 DevSwitched == /\ ("D12" \in dev => D12_EmptyLogPanics) /\ ("D16" \in dev => D16_TimeoutDropsPartials)
                /\ ("D17" \in dev => D17_SkipSurvivesTimeout) /\ ("D20" \in dev => D20_BackslashNIsEnd)
